@@ -40,7 +40,7 @@ ASSUMPTIONS = [
 NOT_DECIDED = ["runs *start* in event order under overlap (asyncio ready queue)",
                "classification of decorator arguments into any-change names and expressions (STATE_RE regular expression in "
                "TrigInfo.__init__ / StateTriggerDecorator.validate): regular expressions are outside the encoding; the step "
-               "proofs start from the classified sets"]
+               "proofs start from the classified sets; the regular expression is exercised by a bounded stand-in (bounded.classification)"]
 SHAPE_BOUNDS = {"watched identifiers per trigger": "<= 2 (all coincidence patterns)", "ordinary attributes per value": "<= 2"}
 LEVEL_TEXT = ("Proof (shape-bounded on identifier-set and attribute-set sizes, all names / values): the two ident "
               "predicates equal the statement's qualifying predicates; the fan-out delivers exactly one message with the "
@@ -749,8 +749,14 @@ def h_new_step(n_ident, n_any):
 _h2 = harnesses
 
 
+def bounded_classification(seed):
+    from replay.native import run_native
+    return run_native("c04_classification_bounded", {}, timeout=600)
+
+
 def harnesses():  # noqa: F811
     hs = _h2()
+    hs.append(Harness("bounded.classification", bounded_classification, units=[(T_PY, "TrigInfo.__init__"), (DS_PY, "StateTriggerDecorator.validate")], kind="bounded"))
     for ni, na in ((1, 0), (0, 1), (1, 1)):
         hs.append(Harness(f"new.step[ident={ni},any={na}]", h_new_step(ni, na), units=[(DS_PY, "StateTriggerDecorator._cycle"),
                   (DS_PY, "StateTriggerDecorator._check_new_state"), (DS_PY, "StateTriggerDecorator._is_trig_ok")], max_paths=30000))
